@@ -13,6 +13,8 @@ Open Scope Z_scope.
 (* ---- syntax *)
 Inductive bop := BArith (o : aop) | BDot | BCmp (o : cop).
 
+Inductive hof := HApply | HSelect | HReduce | HFold | HAny | HEvery | HSort.
+
 Inductive expr :=
 | EInt (z : Z) | EStr (s : bytes) | EBool (b : bool)
 | EField (k : bytes) | EOos (k : bytes) | ELocal (x : bytes)
@@ -27,7 +29,11 @@ Inductive expr :=
 | ECall (f : bytes) (args : list expr)
 | EFun1 (f : fun1) (a : expr)
 | EPosName (i : expr)                               (* $[[i]] *)
-| EPosVal (i : expr).                               (* $[[[i]]] *)
+| EPosVal (i : expr)                                (* $[[[i]]] *)
+| ENF                                               (* NF: field count of the current record, absent without one *)
+| EHof (h : hof) (c : expr) (lit : bool) (fn : bytes) (init : option expr).
+    (* apply/select/reduce/fold/any/every/sort(c, fn [, init]): fn names a user-defined function, or (lit = true) the
+       function literal written at this place, which the renderer hoists into the function list under a name starting with '#' *)
 
 Inductive lbase := LField (k : bytes) | LOos (k : bytes) | LLocal (x : bytes).
 
@@ -54,7 +60,13 @@ Inductive stmt :=
 | SCall (name : bytes) (args : list expr)         (* call of a subroutine *)
 | SAssignPosName (i e : expr)                       (* $[[i]] = e : rename *)
 | SAssignPosVal (i e : expr)                        (* $[[[i]]] = e *)
-| SEmitF (items : list (bytes * expr)).             (* emitf @a, @b: one record with those names *)
+| SEmitF (items : list (bytes * expr))              (* emitf @a, @b: one record with those names *)
+| SEmitP (name : bytes) (e : expr) (keys : list bytes)   (* emitp @name [, "k1", ...] *)
+| SEmitLashed (isp : bool) (items : list (bytes * expr)) (* emit (@a, @b) / emitp (@a, @b), no keys *)
+| SPrintN (e : expr)                                (* printn: no newline *)
+| SEprint (e : expr)                                (* eprint / eprintn: standard error, not part of the output stream *)
+| SDump (e : option expr)                           (* dump / dump expr *)
+| SEdump.                                           (* edump: standard error *)
 
 (* user-defined functions and subroutines (f_sub = true; separate name spaces, f_ret unused) *)
 Record fdef := { f_name : bytes; f_sub : bool; f_params : list (tyname * bytes); f_ret : tyname; f_body : list stmt }.
@@ -68,7 +80,7 @@ Record variant := { v_filter_per_record : bool }.
 Definition documented : variant := {| v_filter_per_record := true |}.
 
 (* ---- runtime state: pkg/runtime/state.go *)
-Inductive outitem := ORec (r : amap) | OLine (s : bytes).
+Inductive outitem := ORec (r : amap) | OLine (s : bytes) | OText (s : bytes).   (* OText: text without a final newline (printn) *)
 
 Record state := {
   inrec : option amap;
@@ -108,7 +120,9 @@ Inductive task :=
 | TMulti (ks : list bytes) (v : bytes) (entries : amap) (body : list stmt)  (* executeOuter / executeInner *)
 | TForCLoop (c : option expr) (upd : list stmt) (body : list stmt)
 | TEmitNI (nvs : amap)
-| TEmitIdx (isp : bool) (template : amap) (name : bytes) (entries : amap) (keys : list bytes).
+| TEmitIdx (isp : bool) (template : amap) (name : bytes) (entries : amap) (keys : list bytes)
+| THof (h : hof) (ismap : bool) (lit : bool) (fn : bytes) (items : list (list value)) (acc : value)
+| TSort (lit : bool) (fn : bytes) (arr : list (list value)) (i j : nat).   (* insertion sort, as sort.Slice does up to 12 elements *)
 
 Inductive tres :=
 | RV (v : value)
@@ -217,6 +231,183 @@ Definition eval_call (f : bytes) (args : list expr) (st : state) : res (tres * s
       end
   end.
 
+(* ---- higher-order functions: pkg/dsl/cst/hofs.go.  The callback is invoked through UDFCallsite.EvaluateWithArguments:
+   a named function in a frameset of its own, a function literal in a new FRAME of the current frameset (it sees the
+   locals of the place it is called from).  A literal that leaves the enclosing locals changed is outside the fragment:
+   the stack after the call is compared with the one before. *)
+Definition binding_eqb (a b : binding) : bool := tyname_eqb (b_ty a) (b_ty b) && value_eqb (b_val a) (b_val b).
+Fixpoint scope_eqb (a b : scope) : bool :=
+  match a, b with
+  | [], [] => true
+  | (x, u) :: a', (y, v) :: b' => beqb x y && binding_eqb u v && scope_eqb a' b'
+  | _, _ => false
+  end.
+Fixpoint fset_eqb (a b : fset) : bool :=
+  match a, b with
+  | [], [] => true
+  | x :: a', y :: b' => scope_eqb x y && fset_eqb a' b'
+  | _, _ => false
+  end.
+Definition top_fset_eqb (s s' : astack) : bool :=
+  match s, s' with
+  | a :: _, b :: _ => fset_eqb a b
+  | _, _ => false
+  end.
+
+Definition is_lit_name (n : bytes) : bool := match n with "#"%char :: _ => true | _ => false end.
+
+Definition ret_value (fd : fdef) (o : outcome) : option value :=
+  match o with
+  | OErr => if gate (f_ret fd) VError then Some VError else None
+  | ORet v => if gate (f_ret fd) v then Some v else None
+  | _ => if gate (f_ret fd) VAbsent then Some VAbsent else None
+  end.
+
+Definition call_values (lit : bool) (name : bytes) (vs : list value) (st : state) : res (value * state) :=
+  if negb (Bool.eqb lit (is_lit_name name)) then Unsup else
+  match find_fn false name (List.length vs) fns with
+  | None => Fatal                                      (* not found, or found with another arity: os.Exit *)
+  | Some fd =>
+      if lit then
+        match bind_params (f_params fd) vs (a_push_frame (stk st)) with
+        | None => Fatal
+        | Some s2 =>
+            do (o, st3) <- ex (TBlock (f_body fd)) (set_stk s2 st);
+            if top_fset_eqb (a_pop_frame (stk st3)) (stk st) then
+              match ret_value fd o with Some v => Ok (v, set_stk (stk st) st3) | None => Fatal end
+            else Unsup
+        end
+      else
+        match bind_params (f_params fd) vs (a_push_set (stk st)) with
+        | None => Fatal
+        | Some s2 =>
+            do (o, st3) <- ex (TBlock (f_body fd)) (set_stk s2 st);
+            match ret_value fd o with Some v => Ok (v, pop_set st3) | None => Fatal end
+        end
+  end.
+
+(* the arguments of one callback invocation and what its result does to the accumulator *)
+Inductive hres := HCont (acc : value) | HDone (v : value) | HFatal.
+
+Definition single_entry (v : value) : option (bytes * value) :=
+  match v with VMap [(k, x)] => Some (k, x) | _ => None end.
+
+Definition hof_args (h : hof) (ismap : bool) (acc : value) (item : list value) : list value :=
+  match h with
+  | HReduce | HFold =>
+      if ismap then match single_entry acc with Some (k, x) => VStr k :: x :: item | None => item end
+      else acc :: item
+  | _ => item
+  end.
+
+Definition hof_next (h : hof) (ismap : bool) (acc : value) (item : list value) (r : value) : hres :=
+  match h with
+  | HApply =>
+      if ismap then
+        match single_entry r, acc with
+        | Some (k, x), VMap m => HCont (VMap (mput k x m))
+        | _, _ => HFatal
+        end
+      else match r, acc with
+           | VAbsent, _ => HFatal
+           | _, VArr l => HCont (VArr (l ++ [r]))
+           | _, _ => HFatal
+           end
+  | HSelect =>
+      match r with
+      | VBool true =>
+          match ismap, item, acc with
+          | true, [VStr k; x], VMap m => HCont (VMap (mput k x m))
+          | false, [x], VArr l => HCont (VArr (l ++ [x]))
+          | _, _, _ => HFatal
+          end
+      | VBool false => HCont acc
+      | _ => HFatal
+      end
+  | HAny => match r with VBool true => HDone (VBool true) | VBool false => HCont acc | _ => HFatal end
+  | HEvery => match r with VBool false => HDone (VBool false) | VBool true => HCont acc | _ => HFatal end
+  | HReduce | HFold =>
+      if ismap then match single_entry r with Some _ => HCont r | None => HFatal end
+      else match r with VAbsent => HFatal | _ => HCont r end
+  | HSort => HFatal
+  end.
+
+Definition arr_items (l : list value) : list (list value) := map (fun x => [x]) l.
+Definition map_items (m : amap) : list (list value) := map (fun kv => [VStr (fst kv); snd kv]) m.
+Definition items_value (ismap : bool) (items : list (list value)) : value :=
+  if ismap then VMap (flat_map (fun it => match it with [VStr k; x] => [(k, x)] | _ => [] end) items)
+  else VArr (flat_map (fun it => match it with [x] => [x] | _ => [] end) items).
+
+Definition fn_resolvable (lit : bool) (fn : bytes) (st : state) : bool :=
+  (* a named function given as a bare word is looked up as a local first (LocalVariableNode): a local of that name is outside the fragment *)
+  lit || match a_get fn (stk st) with Some _ => false | None => true end.
+
+(* getHOFSpace runs before the first callback (and for empty collections too): the function must exist with the arity
+   this higher-order function needs for this kind of collection, else the program ends *)
+Definition hof_arity (h : hof) (ismap : bool) : nat :=
+  match h with
+  | HApply | HSelect | HAny | HEvery => if ismap then 2%nat else 1%nat
+  | HReduce | HFold | HSort => if ismap then 4%nat else 2%nat
+  end.
+Definition hof_fn_ok (h : hof) (ismap : bool) (lit : bool) (fn : bytes) : bool :=
+  Bool.eqb lit (is_lit_name fn) &&
+  match find_fn false fn (hof_arity h ismap) fns with Some _ => true | None => false end.
+
+Definition eval_hof (h : hof) (c : expr) (lit : bool) (fn : bytes) (init : option expr) (st : state) : res (tres * state) :=
+  do (vc, st1) <- ev c st;
+  if negb (fn_resolvable lit fn st1) then Unsup else
+  do (vi, st2) <- match init with Some ie => ev ie st1 | None => Ok (VAbsent, st1) end;
+  if (match vc with VArr _ => negb (hof_fn_ok h false lit fn) | VMap _ => negb (hof_fn_ok h true lit fn) | _ => false end)
+  then (if Bool.eqb lit (is_lit_name fn) then Fatal else Unsup) else
+  match h, init with
+  | HFold, None => Unsup
+  | HFold, Some _ =>
+      match vc with
+      | VArr l => rec (THof HFold false lit fn (arr_items l) vi) st2
+      | VMap [] => rv VAbsent st2
+      | VMap m => match single_entry vi with
+                  | Some _ => rec (THof HFold true lit fn (map_items m) vi) st2
+                  | None => Fatal
+                  end
+      | _ => rv VError st2
+      end
+  | _, Some _ => Unsup
+  | HApply, None | HSelect, None =>
+      match vc with
+      | VArr l => rec (THof h false lit fn (arr_items l) (VArr [])) st2
+      | VMap m => rec (THof h true lit fn (map_items m) (VMap [])) st2
+      | _ => rv VError st2
+      end
+  | HAny, None | HEvery, None =>
+      match vc with
+      | VArr l => rec (THof h false lit fn (arr_items l) (VBool (match h with HAny => false | _ => true end))) st2
+      | VMap m => rec (THof h true lit fn (map_items m) (VBool (match h with HAny => false | _ => true end))) st2
+      | _ => rv VError st2
+      end
+  | HReduce, None =>
+      match vc with
+      | VArr [] => rv vc st2
+      | VArr (x :: l) => rec (THof HReduce false lit fn (arr_items l) x) st2
+      | VMap [] => rv vc st2
+      | VMap ((k, x) :: m) => rec (THof HReduce true lit fn (map_items m) (VMap [(k, x)])) st2
+      | _ => rv VError st2
+      end
+  | HSort, None =>
+      match vc with
+      | VArr [] | VMap [] => rv vc st2
+      | VArr l => if (12 <? alen l) then Unsup else rec (TSort lit fn (arr_items l) 1 1) st2
+      | VMap m => if (12 <? Z.of_nat (List.length m)) then Unsup else rec (TSort lit fn (map_items m) 1 1) st2
+      | _ => rv VError st2
+      end
+  end.
+
+Fixpoint swap_adj {A} (l : list A) (j : nat) : list A :=   (* swap positions j-1 and j *)
+  match l, j with
+  | a :: b :: t, 1%nat => b :: a :: t
+  | a :: t, S j' => a :: swap_adj t j'
+  | _, _ => l
+  end.
+
 Definition eval_expr (e : expr) (st : state) : res (tres * state) :=
   match e with
   | EInt z => rv (VInt z) st
@@ -285,6 +476,8 @@ Definition eval_expr (e : expr) (st : state) : res (tres * state) :=
                       end) st1
       | _ => rv VError st1
       end
+  | ENF => rv (match inrec st with Some r => VInt (Z.of_nat (List.length r)) | None => VAbsent end) st
+  | EHof h c lit fn init => eval_hof h c lit fn init st
   end.
 
 (* ---- assignments: lvalues.go *)
@@ -339,8 +532,9 @@ Definition assign_local_indexed (x : bytes) (vs : list value) (v : value) (st : 
       end
   end.
 
-(* $k[...] / @k[...] when $k / @k currently holds a non-collection: the tree converts the stored value in place, which is
-   visible through a local that was bound to that field/oosvar by reference (pending finding): outside the fragment *)
+(* $k[...] / @k[...] when $k / @k currently holds a non-collection: putIndexedOnMap gives the slot a copy of the scalar,
+   which PutIndexed then converts (fix ad8618c0f; before it the stored value was converted in place, which was visible through
+   a local bound to that field/oosvar by reference).  [top_scalar] is kept for the statement of that case. *)
 Definition top_scalar (k : bytes) (m : amap) : bool :=
   match mget k m with
   | Some (VMap _) => false
@@ -352,12 +546,10 @@ Definition assign_indexed (b : lbase) (vs : list value) (v : value) (st : state)
   match b with
   | LField k => match inrec st with
                 | None => ro OErr st
-                | Some r => if top_scalar k r then Unsup else
-                            of_pres (put_indexed_map r (VStr k :: vs) v)
+                | Some r => of_pres (put_indexed_map r (VStr k :: vs) v)
                               (fun m => ro ONormal (set_inrec (Some m) st)) st
                 end
-  | LOos k => if top_scalar k (oos st) then Unsup else
-              of_pres (put_indexed_map (oos st) (VStr k :: vs) v)
+  | LOos k => of_pres (put_indexed_map (oos st) (VStr k :: vs) v)
                 (fun m => ro ONormal (set_oos m st)) st
   | LLocal x => assign_local_indexed x vs v st
   end.
@@ -387,7 +579,7 @@ Definition print_string (v : value) : option bytes :=
   match v with
   | VAbsent => Some []
   | VError => Some (B "(error)")
-  | VMap _ | VArr _ => None
+  | VMap _ | VArr _ => json 0 v
   | _ => scalar_string v
   end.
 
@@ -584,6 +776,55 @@ Definition exec_stmt (s : stmt) (st : state) : res (tres * state) :=
       do (vs, st1) <- evs (map snd items) st;
       ro ONormal (emit_item (ORec (fold_left (fun r kv => match snd kv with VAbsent => r | v => mput (fst kv) v r end)
                                              (combine (map fst items) vs) [])) st1)
+  | SEmitP name e keys =>
+      (* executeNonIndexedNonLashedEmitP: one record {name: value}; executeIndexed + executeIndexedNonLashedEmitPAux *)
+      do (v, st1) <- ev e st;
+      match keys with
+      | [] => match v with
+              | VAbsent => ro ONormal st1
+              | _ => ro ONormal (emit_item (ORec [(name, v)]) st1)
+              end
+      | _ => match v with
+             | VMap m => do (_, st2) <- rec (TEmitIdx true [] name m keys) st1; ro ONormal st2
+             | _ => ro ONormal st1
+             end
+      end
+  | SEmitLashed isp items =>
+      do (vs, st1) <- evs (map snd items) st;
+      let nvs := combine (map fst items) vs in
+      if isp then
+        (* executeNonIndexedLashedEmitP: one record with the present names *)
+        ro ONormal (emit_item (ORec (fold_left (fun r kv => match snd kv with VAbsent => r | v => mput (fst kv) v r end) nvs [])) st1)
+      else
+        match vs with
+        | VMap _ :: _ => do (_, st2) <- rec (TEmitNI nvs) st1; ro ONormal st2     (* leading value a map: as the non-lashed emit *)
+        | _ :: _ =>
+            (* one record: map values are merged in, the others keep their names *)
+            ro ONormal (emit_item (ORec (fold_left (fun r kv => match snd kv with
+                                                                 | VAbsent => r
+                                                                 | VMap m => fold_left (fun r2 kv2 => mput (fst kv2) (snd kv2) r2) m r
+                                                                 | v => mput (fst kv) v r
+                                                                 end) nvs [])) st1)
+        | [] => Unsup
+        end
+  | SPrintN e =>
+      do (v, st1) <- ev e st;
+      match print_string v with
+      | Some s => ro ONormal (emit_item (OText s) st1)
+      | None => Unsup
+      end
+  | SEprint e => do (v, st1) <- ev e st; ro ONormal st1
+  | SDump eo =>
+      (* DumpStatementNode.Execute: the text of each present value and a newline, as ONE output string *)
+      do (v, st1) <- match eo with Some e => ev e st | None => Ok (VMap (oos st), st) end;
+      match v with
+      | VAbsent => ro ONormal (emit_item (OText []) st1)
+      | _ => match print_string v with
+             | Some s => ro ONormal (emit_item (OLine s) st1)
+             | None => Unsup
+             end
+      end
+  | SEdump => ro ONormal st
   end.
 
 Definition cond_bool (v : value) : option bool := match v with VBool b => Some b | _ => None end.
@@ -738,6 +979,27 @@ Definition step (t : task) (st : state) : res (tres * state) :=
             end
         end;
       rec (TEmitIdx isp template name more (key :: krest)) st1
+  | THof h ismap lit fn [] acc => rv acc st
+  | THof h ismap lit fn (item :: rest) acc =>
+      do (r, st1) <- call_values lit fn (hof_args h ismap acc item) st;
+      match hof_next h ismap acc item r with
+      | HCont acc' => rec (THof h ismap lit fn rest acc') st1
+      | HDone v => rv v st1
+      | HFatal => Fatal
+      end
+  | TSort lit fn arr i j =>
+      (* insertionSortLessFunc: for i := 1; i < n; i++ { for j := i; j > 0 && less(j, j-1); j-- { swap(j, j-1) } } *)
+      if (List.length arr <=? i)%nat then rv (items_value (match arr with [_; _] :: _ => true | _ => false end) arr) st
+      else match j with
+           | O => rec (TSort lit fn arr (S i) (S i)) st
+           | S j' =>
+               do (r, st1) <- call_values lit fn (nth j arr [] ++ nth j' arr []) st;
+               match r with
+               | VInt z => if z <? 0 then rec (TSort lit fn (swap_adj arr j) i j') st1
+                           else rec (TSort lit fn arr (S i) (S i)) st1
+               | _ => Fatal
+               end
+           end
   end.
 
 End Step.
